@@ -160,6 +160,10 @@ type handler struct {
 	pendingMsg atomic.Pointer[announce.Announce]
 	// expires is the time the handler is removed if it remains idle.
 	expires time.Time
+	// users counts the syncs, running or waiting to run, that are using this
+	// handler. A handler that is in use is not removed. Protected by
+	// Subscriber.handlersMutex.
+	users int
 	// syncer is a sync client for this handler's peer.
 	syncer Syncer
 }
@@ -377,8 +381,12 @@ func (s *Subscriber) RemoveHandler(peerID peer.ID) bool {
 	s.handlersMutex.Lock()
 	defer s.handlersMutex.Unlock()
 
-	// Check for existing handler, remove if found.
-	if _, ok := s.handlers[peerID]; !ok {
+	// Check for existing handler, remove if found and not in use. Removing a
+	// handler that has a sync running, or an announcement waiting to be
+	// handled, would let a second handler for the same publisher run another
+	// sync at the same time.
+	hnd, ok := s.handlers[peerID]
+	if !ok || hnd.users != 0 {
 		return false
 	}
 
@@ -426,6 +434,7 @@ func (s *Subscriber) SyncAdChain(ctx context.Context, peerInfo peer.AddrInfo, op
 	log := log.With("peer", peerInfo.ID)
 
 	hnd := s.getOrCreateHandler(peerInfo.ID)
+	defer s.releaseHandler(hnd)
 
 	syncer, updatePeerstore, err := hnd.makeSyncer(peerInfo, true)
 	if err != nil {
@@ -585,6 +594,7 @@ func (s *Subscriber) syncEntries(ctx context.Context, peerInfo peer.AddrInfo, en
 	}
 
 	hnd := s.getOrCreateHandler(peerInfo.ID)
+	defer s.releaseHandler(hnd)
 
 	syncer, _, err := hnd.makeSyncer(peerInfo, false)
 	if err != nil {
@@ -664,7 +674,8 @@ func (s *Subscriber) distributeEvents() {
 }
 
 // getOrCreateHandler returns an existing handler or creates a new one for the
-// specified peer (publisher).
+// specified peer (publisher). The handler is marked as in use, which keeps it
+// from being removed, until the caller calls releaseHandler.
 func (s *Subscriber) getOrCreateHandler(peerID peer.ID) *handler {
 	expires := time.Now().Add(s.idleHandlerTTL)
 
@@ -683,8 +694,18 @@ func (s *Subscriber) getOrCreateHandler(peerID peer.ID) *handler {
 		}
 		s.handlers[peerID] = hnd
 	}
+	hnd.users++
 
 	return hnd
+}
+
+// releaseHandler is called when the caller of getOrCreateHandler is done using
+// the handler.
+func (s *Subscriber) releaseHandler(hnd *handler) {
+	s.handlersMutex.Lock()
+	hnd.users--
+	hnd.expires = time.Now().Add(s.idleHandlerTTL)
+	s.handlersMutex.Unlock()
 }
 
 // idleHandlerCleaner periodically looks for idle handlers to remove. This
@@ -697,7 +718,7 @@ func (s *Subscriber) idleHandlerCleaner() {
 		case now := <-t.C:
 			s.handlersMutex.Lock()
 			for pid, hnd := range s.handlers {
-				if now.After(hnd.expires) {
+				if hnd.users == 0 && now.After(hnd.expires) {
 					delete(s.handlers, pid)
 					log.Debugw("Removed idle handler", "peer", pid)
 				}
@@ -737,6 +758,7 @@ func (s *Subscriber) watch() {
 		// existing request to sync the ad chain.
 		if oldMsg != nil {
 			log.Infow("Pending announce replaced by new", "previous_cid", oldMsg.Cid, "new_cid", amsg.Cid, "peer", hnd.peerID)
+			s.releaseHandler(hnd)
 			continue
 		}
 
@@ -744,6 +766,7 @@ func (s *Subscriber) watch() {
 		// Start a new goroutine to handle this message.
 		s.asyncWG.Add(1)
 		go func() {
+			defer s.releaseHandler(hnd)
 			// Wait for any previous asyncSyncAdChain to finish before removing the
 			// latest pending messaged and reducing the available items in the sync
 			// semaphore.
